@@ -299,6 +299,23 @@ impl Subject for IdSubject {
             let sig = if a == b { format!("iteration-order:{}", coll) } else { format!("iteration-content:{}", coll) };
             fs.push(Finding { sig, detail: format!("iter() yields {:?}, live items in creation order are {:?}", it, want) });
         }
+        // mutable iteration must yield exactly the same live items
+        let itm: Option<Vec<AnyId>> = match coll {
+            "funcs" => Some(o.m.funcs.iter_mut().map(|x| AnyId::F(x.id())).collect()),
+            "tables" => Some(o.m.tables.iter_mut().map(|x| AnyId::T(x.id())).collect()),
+            "memories" => Some(o.m.memories.iter_mut().map(|x| AnyId::M(x.id())).collect()),
+            "elements" => Some(o.m.elements.iter_mut().map(|x| AnyId::E(x.id())).collect()),
+            "imports" => Some(o.m.imports.iter_mut().map(|x| AnyId::I(x.id())).collect()),
+            "exports" => Some(o.m.exports.iter_mut().map(|x| AnyId::X(x.id())).collect()),
+            "customs" => Some(o.m.customs.iter_mut().map(|(id, _)| AnyId::C(id)).collect()),
+            _ => None,
+        };
+        if let Some(itm) = itm {
+            let w: Vec<AnyId> = want.iter().map(|x| x.0).collect();
+            if itm != w {
+                fs.push(Finding { sig: format!("iter_mut-content:{}", coll), detail: format!("iter_mut() yields {:?}, live items in creation order are {:?}", itm, w) });
+            }
+        }
         if coll == "memories" && o.m.memories.len() != want.len() {
             fs.push(Finding { sig: "len:memories".into(), detail: format!("len() = {}, live = {}", o.m.memories.len(), want.len()) });
         }
